@@ -418,7 +418,11 @@ pub fn check_cli(e: &BFCase, text: &str, mode: u8, ctx: &mut Ctx) -> CheckResult
             if mode >= 1 {
                 for (prefix, want) in [("Área de referencia (", format!("Área de referencia (metadatos) [m2]: {:.2}", e.area)), ("Factor de exportación (", format!("Factor de exportación (metadatos) [-]: {:.1}", e.k))] {
                     let got = run2.stdout.lines().find(|l| l.starts_with(prefix)).unwrap_or("");
-                    ensure!(got == want, "cli_recorded_parameters", "the run on the emitted files prints `{}`; the original run used `{}`", got, want);
+                    let same_number = match (got.rsplit_once(':').and_then(|(_, v)| v.trim().parse::<f64>().ok()), want.rsplit_once(':').and_then(|(_, v)| v.trim().parse::<f64>().ok())) {
+                        (Some(a), Some(b)) => (a - b).abs() <= 1e-9 + 1e-6 * b.abs(),
+                        _ => false,
+                    };
+                    ensure!(got == want || (got.contains("(metadatos)") && same_number), "cli_recorded_parameters", "the run on the emitted files prints `{}`; the original run used `{}`", got, want);
                 }
             }
             // RER lines compared only when they are far from 0/0 (a total within printing error of
